@@ -113,6 +113,10 @@ func c02Laws(args []string) error {
 		eh := v2.Vec{X: u(0, 3), Y: u(0, 2)}
 		el := sdf.Elongate2D(a2, eh)
 		num, step := v2i.Vec{X: 1 + rnd.Intn(3), Y: 1 + rnd.Intn(3)}, v2.Vec{X: u(-4, 4), Y: u(-4, 4)}
+		if i%3 == 2 {
+			// many copies at a pitch well below the size of the part: every copy matters, not only the nearest ones
+			num, step = v2i.Vec{X: 1 + rnd.Intn(7), Y: 1 + rnd.Intn(7)}, v2.Vec{X: u(-1.2, 1.2), Y: u(-1.2, 1.2)}
+		}
 		ar := sdf.Array2D(a2, num, step)
 		n := 1 + rnd.Intn(7)
 		rc := sdf.RotateCopy2D(a2, n)
@@ -179,6 +183,9 @@ func c02Laws(args []string) error {
 		eh3 := v3.Vec{X: u(0, 3), Y: u(0, 2), Z: u(0, 2)}
 		el3 := sdf.Elongate3D(a3, eh3)
 		num3, step3 := v3i.Vec{X: 1 + rnd.Intn(2), Y: 1 + rnd.Intn(3), Z: 1 + rnd.Intn(2)}, v3.Vec{X: u(-4, 4), Y: u(-4, 4), Z: u(-4, 4)}
+		if i%3 == 2 {
+			num3, step3 = v3i.Vec{X: 1 + rnd.Intn(7), Y: 1 + rnd.Intn(6), Z: 1 + rnd.Intn(3)}, v3.Vec{X: u(-1.2, 1.2), Y: u(-1.2, 1.2), Z: u(-1.2, 1.2)}
+		}
 		ar3 := sdf.Array3D(a3, num3, step3)
 		rc3 := sdf.RotateCopy3D(a3, n)
 		ru3 := sdf.RotateUnion3D(a3, n, sdf.RotateZ(sdf.Tau/float64(n)))
